@@ -1,4 +1,4 @@
-import Poulpy.Lemmas.BytesRT
+import Poulpy.Lemmas.BytesHist
 /-!
 # C18 — serialisation round-trips, and rejects damaged input without corruption
 
@@ -351,5 +351,115 @@ example : FieldsFit (hdrWidths "glwe_automorphism_key") [2 ^ 64 - 5, 12, 1] ∧
     have : i = 0 ∨ i = 1 ∨ i = 2 := by simp [hdrWidths] at hi; omega
     rcases this with rfl | rfl | rfl <;> decide
   · unfold MatRT MatWF MatZnx.Inv; decide
+
+/-! ## Part 4 — capacity, receiver reuse, write → read → write
+
+Capacity of a receiver = length of its byte buffer (`VecZnx.capacity` …), never its current logical shape.
+`vecAccept cap bs` / `scalarAccept` / `matAccept` (Model/Bytes) decide acceptance from the stream and the capacity alone. -/
+
+/-- **acceptance is a function of (stream, capacity)**: after *any* sequence `hist` of earlier reads into the same
+receiver — successful or not, of any shapes — the next read is accepted iff `…Accept r.capacity bs`, where `r.capacity`
+is the buffer length the receiver was created with.  Earlier successful reads never shrink (or grow) what is accepted. -/
+theorem read_acceptance_history_independent :
+    (∀ (r : VecZnx) (hist : List Bytes) (bs : Bytes), (VecZnx.readFrom (VecZnx.readSeq r hist) bs).isOk = vecAccept r.capacity bs) ∧
+    (∀ (r : ScalarZnx) (hist : List Bytes) (bs : Bytes), (ScalarZnx.readFrom (ScalarZnx.readSeq r hist) bs).isOk = scalarAccept r.capacity bs) ∧
+    (∀ (r : MatZnx) (hist : List Bytes) (bs : Bytes), (MatZnx.readFrom (MatZnx.readSeq r hist) bs).isOk = matAccept r.capacity bs) :=
+  ⟨fun r hist bs => by rw [vec_isOk_eq, vec_readSeq_capacity],
+   fun r hist bs => by rw [scalar_isOk_eq, scalar_readSeq_capacity],
+   fun r hist bs => by rw [mat_isOk_eq, mat_readSeq_capacity]⟩
+/-- non-vacuity: a 16-byte matrix receiver that first received an 8-byte object still accepts a 16-byte one -/
+example :
+    let small := leBytes 8 1 ++ leBytes 8 1 ++ leBytes 8 1 ++ leBytes 8 1 ++ leBytes 8 1 ++ leBytes 8 8 ++ List.replicate 8 5
+    let large := leBytes 8 1 ++ leBytes 8 1 ++ leBytes 8 2 ++ leBytes 8 1 ++ leBytes 8 1 ++ leBytes 8 16 ++ List.replicate 16 6
+    (MatZnx.readSeq ⟨1, 1, 2, 1, 1, List.replicate 16 0⟩ [small]).rows = 1 ∧
+    (MatZnx.readFrom (MatZnx.readSeq ⟨1, 1, 2, 1, 1, List.replicate 16 0⟩ [small]) large).isOk = true := by decide
+
+/-- the three acceptance predicates are what the readers decide (single read) -/
+theorem read_accepts_iff_capacity (rv : VecZnx) (rs : ScalarZnx) (rm : MatZnx) (bs : Bytes) :
+    (VecZnx.readFrom rv bs).isOk = vecAccept rv.capacity bs ∧ (ScalarZnx.readFrom rs bs).isOk = scalarAccept rs.capacity bs ∧
+    (MatZnx.readFrom rm bs).isOk = matAccept rm.capacity bs :=
+  ⟨vec_isOk_eq rv bs, scalar_isOk_eq rs bs, mat_isOk_eq rm bs⟩
+example : vecAccept 8 (leBytes 8 1 ++ leBytes 8 1 ++ leBytes 8 1 ++ leBytes 8 1000 ++ leBytes 8 8 ++ List.replicate 8 1) = false ∧
+    vecAccept 8 (leBytes 8 1 ++ leBytes 8 1 ++ leBytes 8 1 ++ leBytes 8 1 ++ leBytes 8 8 ++ List.replicate 8 1) = true := by decide
+
+/-- **round trip after any history**: whatever was read into the receiver before, an object that fits its capacity is
+written and read back (dimensions, active bytes, stream tail untouched) -/
+theorem round_trip_after_history :
+    (∀ (x r : VecZnx) (hist : List Bytes) (p : Profile) (tail : Bytes), VecWF x → x.Inv → x.n * x.cols * x.maxSize * 8 ≤ r.capacity →
+      ∃ bs, x.writeTo p = .ok bs ∧ VecZnx.readFrom (VecZnx.readSeq r hist) (bs ++ tail) = .ok () (vecMerge x (VecZnx.readSeq r hist)) tail) ∧
+    (∀ (x r : ScalarZnx) (hist : List Bytes) (p : Profile) (tail : Bytes), ScalarWF x → x.Inv → x.n * x.cols * 8 ≤ r.capacity →
+      ∃ bs, x.writeTo p = .ok bs ∧ ScalarZnx.readFrom (ScalarZnx.readSeq r hist) (bs ++ tail) = .ok () (scalarMerge x (ScalarZnx.readSeq r hist)) tail) ∧
+    (∀ (x r : MatZnx) (hist : List Bytes) (p : Profile) (tail : Bytes), MatWF x → x.Inv →
+      x.rows * x.colsIn * x.n * x.colsOut * x.size * 8 ≤ r.capacity →
+      ∃ bs, x.writeTo p = .ok bs ∧ MatZnx.readFrom (MatZnx.readSeq r hist) (bs ++ tail) = .ok () (matMerge x (MatZnx.readSeq r hist)) tail) := by
+  refine ⟨fun x r hist p tail hw hi hc => ?_, fun x r hist p tail hw hi hc => ?_, fun x r hist p tail hw hi hc => ?_⟩
+  · have hc' : x.n * x.cols * x.maxSize * 8 ≤ (VecZnx.readSeq r hist).data.length := by
+      have := vec_readSeq_capacity r hist; unfold VecZnx.capacity at this hc; omega
+    exact vec_rt x _ p tail hw hi hc'
+  · have hc' : x.n * x.cols * 8 ≤ (ScalarZnx.readSeq r hist).data.length := by
+      have := scalar_readSeq_capacity r hist; unfold ScalarZnx.capacity at this hc; omega
+    exact scalar_rt x _ p tail hw hi hc'
+  · have hc' : x.rows * x.colsIn * x.n * x.colsOut * x.size * 8 ≤ (MatZnx.readSeq r hist).data.length := by
+      have := mat_readSeq_capacity r hist; unfold MatZnx.capacity at this hc; omega
+    exact mat_rt x _ p tail hw hi hc'
+example : VecWF ⟨2, 1, 1, 1, List.replicate 16 3⟩ ∧ VecZnx.Inv ⟨2, 1, 1, 1, List.replicate 16 3⟩ ∧
+    2 * 1 * 1 * 8 ≤ VecZnx.capacity ⟨4, 2, 1, 1, List.replicate 64 0⟩ := by
+  unfold VecWF VecZnx.Inv VecZnx.capacity; decide
+
+/-- wrappers: any sequence of reads by any modelled reader keeps every leaf consistent and **never changes a buffer
+length** — so the capacity hypothesis of `wrapper_read_write` can be checked once, on the freshly allocated receiver -/
+theorem wrapper_history_preserves_capacity (ty : String) (rd : Rd St Unit) (h : readerOf ty = some rd) (s : St) (hist : List Bytes)
+    (hs : s.Inv) : (readSeqSt rd s hist).Inv ∧ (readSeqSt rd s hist).leaves.map Leaf.bufLen = s.leaves.map Leaf.bufLen := by
+  induction hist generalizing s with
+  | nil => exact ⟨hs, rfl⟩
+  | cons bs rest ih =>
+    have k := reader_ok_err_inv ty rd h s bs hs
+    have k2 := ih (rd s bs).state k.1
+    exact ⟨k2.1, by show List.map Leaf.bufLen (readSeqSt rd (rd s bs).state rest).leaves = _; rw [k2.2, k.2]⟩
+example : St.Inv ⟨[12, 1], [], [.mat ⟨1, 1, 2, 1, 1, List.replicate 16 0⟩], 0⟩ ∧ (readerOf "gglwe").isSome = true := by decide
+
+/-- **write → read → write**: re-serialising the receiver after a successful round trip gives the bytes that were written
+(for any receiver with capacity, whatever its buffer contained) -/
+theorem write_read_write :
+    (∀ (x r : VecZnx) (p : Profile), VecRT x r → (vecMerge x r).writeTo p = x.writeTo p) ∧
+    (∀ (x r : ScalarZnx) (p : Profile), ScalarRT x r → (scalarMerge x r).writeTo p = x.writeTo p) ∧
+    (∀ (x r : MatZnx) (p : Profile), MatRT x r → (matMerge x r).writeTo p = x.writeTo p) := by
+  refine ⟨fun x r p h => ?_, fun x r p h => ?_, fun x r p h => ?_⟩
+  · obtain ⟨⟨hn, hc, hs, hm, hnc, hd⟩, ⟨hsz, hbuf⟩, hcap⟩ := h
+    have h1 : x.n * x.cols * x.size * 8 ≤ x.n * x.cols * x.maxSize * 8 := Nat.mul_le_mul_right 8 (Nat.mul_le_mul_left _ hsz)
+    have h2 : x.n * x.cols * x.size * 8 < 2 ^ 64 := by omega
+    have h3 : x.n * x.cols * x.size < 2 ^ 64 := by omega
+    unfold VecZnx.writeTo vecMerge
+    simp only [bind, Outcome.bind, mulU_of_lt p hnc, mulU_of_lt p h3, mulU_of_lt p h2]
+    have hl : (List.take (x.n * x.cols * x.size * 8) x.data).length = x.n * x.cols * x.size * 8 := by simp; omega
+    have a1 : ¬ x.data.length < x.n * x.cols * x.size * 8 := by omega
+    have a2 : ¬ (List.take (x.n * x.cols * x.size * 8) x.data ++ List.drop (x.n * x.cols * x.size * 8) r.data).length < x.n * x.cols * x.size * 8 := by
+      simp; omega
+    simp only [a1, a2, ↓reduceIte, List.take_left' hl]
+  · obtain ⟨⟨hn, hc, hd⟩, hi, hcap⟩ := h
+    unfold ScalarZnx.Inv at hi
+    have h2 : x.n * x.cols * 8 < 2 ^ 64 := by omega
+    have h1 : x.n * x.cols < 2 ^ 64 := by omega
+    unfold ScalarZnx.writeTo scalarMerge
+    simp only [bind, Outcome.bind, mulU_of_lt p h1, mulU_of_lt p h2]
+    have hl : (List.take (x.n * x.cols * 8) x.data).length = x.n * x.cols * 8 := by simp; omega
+    have a1 : ¬ x.data.length < x.n * x.cols * 8 := by omega
+    have a2 : ¬ (List.take (x.n * x.cols * 8) x.data ++ List.drop (x.n * x.cols * 8) r.data).length < x.n * x.cols * 8 := by simp; omega
+    simp only [a1, a2, ↓reduceIte, List.take_left' hl]
+  · obtain ⟨⟨hn, hs, hr, hci, hco, hd, p1, p2, p3, q1, q2, q3, q4⟩, hi, hcap⟩ := h
+    unfold MatZnx.Inv at hi
+    have hL : x.rows * x.colsIn * x.n * x.colsOut * x.size * 8 < 2 ^ 64 := by omega
+    have hw5 : x.rows * x.colsIn * (x.n * x.colsOut * x.size * 8) < 2 ^ 64 := by rw [mat_len_assoc]; exact hL
+    unfold MatZnx.writeTo MatZnx.bytesOf matMerge
+    simp only [bind, Outcome.bind, mulU_of_lt p p1, mulU_of_lt p p2, mulU_of_lt p p3, mulU_of_lt p q1, mulU_of_lt p hw5, mat_len_assoc]
+    have hl : (List.take (x.rows * x.colsIn * x.n * x.colsOut * x.size * 8) x.data).length = x.rows * x.colsIn * x.n * x.colsOut * x.size * 8 := by
+      simp; omega
+    have a1 : ¬ x.data.length < x.rows * x.colsIn * x.n * x.colsOut * x.size * 8 := by omega
+    have a2 : ¬ (List.take (x.rows * x.colsIn * x.n * x.colsOut * x.size * 8) x.data ++
+        List.drop (x.rows * x.colsIn * x.n * x.colsOut * x.size * 8) r.data).length < x.rows * x.colsIn * x.n * x.colsOut * x.size * 8 := by
+      simp; omega
+    simp only [a1, a2, ↓reduceIte, List.take_left' hl]
+example : VecRT ⟨2, 1, 1, 1, List.replicate 16 3⟩ ⟨4, 2, 1, 1, List.replicate 64 0⟩ := by
+  unfold VecRT VecWF VecZnx.Inv; decide
 
 end C18
